@@ -150,7 +150,7 @@ Clauses0(ev) ==
          \cup F("upd.args", ~LawUpdArgs(post, ev.reqargs))
          \cup F("upd.constrained", ~LawUpdConstrained(post, cons))
          \cup F("static.others", \E a \in DOMAIN pre.choices :
-                   a \notin DOMAIN cons /\ ~IsPrefixP(ev.extra, a) /\ ~UnderAny(a, Rs(p, post, ev.tags, cons))
+                   a \notin DOMAIN cons /\ ~IsPrefixP(ev.extra, a) /\ ~UnderAny(a, RsD(p, post, ev.tags, DOMAIN cons \cup {b \in Addrs(p) : IsPrefixP(ev.extra, b)}))
                    /\ (a \notin DOMAIN post.choices \/ post.choices[a] # pre.choices[a]))
     [] ev.op = "subtrace" -> SubtraceClauses(p, pre, ev)
     [] ev.op = "project" ->
